@@ -386,6 +386,11 @@ func runBatch(bin, prop, tier string, seed uint64, faults bool, runs int, budget
 						mu.Lock()
 						if o.Hang {
 							b.hangs = append(b.hangs, o.Replay)
+							if st, err := os.ReadFile(out + ".stacks"); err == nil {
+								os.MkdirAll(filepath.Join(outDir, "replays", prop), 0o755)
+								os.WriteFile(filepath.Join(outDir, "replays", prop, fmt.Sprintf("hang-stacks-%d.txt", len(b.hangs))), st, 0o644)
+								os.Remove(out + ".stacks")
+							}
 						} else if o.Error != "" {
 							b.errors = append(b.errors, o.Error)
 						} else if o.Result != nil {
